@@ -334,6 +334,36 @@ impl<'a> Exec<'a> {
     }
 
     fn commit_history(&mut self) {
+        // per-key write history (diagnostic tags of recorded findings): writes that did not go
+        // through `reset_sticky` - transaction commits, the transactional keyspace helpers - are
+        // derived from what changed in the model
+        if let Some(prev) = self.history.last() {
+            let step = self.step_no;
+            let mut events: Vec<((KsIdx, Vec<u8>), Option<Vec<u8>>)> = vec![];
+            for (ks, cur) in &self.model.ks {
+                let old = prev.ks.get(ks).filter(|o| o.inc == cur.inc);
+                let empty = Map::new();
+                let om = old.map_or(&empty, |o| &o.map);
+                for (k, v) in &cur.map {
+                    if om.get(k) != Some(v) {
+                        events.push(((*ks, k.clone()), Some(v.clone())));
+                    }
+                }
+                for k in om.keys() {
+                    if !cur.map.contains_key(k) {
+                        events.push(((*ks, k.clone()), None));
+                    }
+                }
+            }
+            for (cell, value) in events {
+                let h = self.key_hist.entry(cell.clone()).or_default();
+                if h.last().is_some_and(|e| e.step == step) {
+                    continue;
+                }
+                self.written_since_reopen.insert(cell);
+                h.push(KeyEvent { step, value, journaled: true, ingested: false });
+            }
+        }
         self.history.push(self.model.clone());
     }
 
